@@ -161,12 +161,14 @@ def gen_song(rng, ntracks=None, loops=None, tempo_changes=True, same_tick=True, 
         # counted loops (marker "loopStart=N" ... "loopEnd=0"), possibly nested, possibly unbalanced
         a = rng.randrange(0, max(1, length_ticks // 3)); b = rng.randrange(length_ticks // 3 + 1, length_ticks)
         seq = [(a, b"loopStart=%d" % rng.choice([0, 1, 2, 3])), (b, b"loopEnd=0")]
-        if rng.random() < 0.5:
+        if rng.random() < 0.7:
             seq += [(a + 1, b"loopStart=2"), (max(a + 2, b - 1), b"loopEnd=0")]
         if rng.random() < 0.3:
             seq += [(b + 1, rng.choice([b"loopEnd=0", b"loopStart=1"]))]
-        for (tk2, txt) in seq:
-            insert(tk, tk2, b"\xff\x06" + vlq(len(txt)) + txt, ("meta",))
+        for n2, (tk2, txt) in enumerate(seq):
+            # the second pair may live in another track: parsed per track the nesting depth is 1, played interleaved it is 2
+            tr = tk if n2 < 2 or rng.random() < 0.4 else (tk + 1) % ntracks
+            insert(tr, tk2, b"\xff\x06" + vlq(len(txt)) + txt, ("meta",))
     return s
 
 
